@@ -195,6 +195,17 @@ func runC09(d c09Desc) Case {
 			w.sentinels = append(w.sentinels, e)
 		}
 	}
+	// ... and cause-less twins of foreign wrappers (same type and message as a wrapper that
+	// occurs in some tree WITH a cause): a node with nested causes is never the sentinel
+	for _, e := range w.errs {
+		if se, ok := e.(*singleErr); ok && se.cause != nil {
+			k := fmt.Sprintf("%T|%s", e, e.Error())
+			if !seenS[k] {
+				seenS[k] = true
+				w.sentinels = append(w.sentinels, &singleErr{msg: se.msg})
+			}
+		}
+	}
 	var res resolver.Resolver = resolver.New(w.reg...)
 	dfltIdx := -1
 	if d.Default && len(w.reg) > 0 {
